@@ -331,16 +331,18 @@ def generate(api):
     out = [api.HEADER,
            "From RV Require Import Model.F32.\nLocal Open Scope Z_scope.\n",
            "Inductive step := StDemul | StMul | StFromLinear | StIntoLinear | StKernel.\n"]
+    # clip.rs / mask.rs / render_group go to their own file: C15's closure does not depend on the filter kernels
+    out_clip = [api.HEADER, "From RV Require Import Model.F32.\nLocal Open Scope Z_scope.\n"]
     ok = True
 
-    def section(name, f):
+    def section(name, f, props=('C16',), dest=None):
         nonlocal ok
         try:
-            out.append(f())
-            api.ok('tables', name, props=PROPS)
+            (out if dest is None else dest).append(f())
+            api.ok('tables', name, props=list(props))
         except (Bad, OSError, ValueError, KeyError, IndexError, AssertionError) as e:
             ok = False
-            api.broken('pixel', name, PROPS, e)
+            api.broken('pixel', name, list(props), e)
 
     try:
         mod = api.rd('crates/resvg/src/filter/mod.rs')
@@ -502,7 +504,7 @@ def generate(api):
     def arith():
         body = strip_comments(body_of(comp, 'arithmetic'))
         m = re.search(r"let\s+calc\s*=\s*\|i1,\s*i2,\s*max\|\s*\{\s*let\s+i1\s*=\s*(i1[^;]*);\s*let\s+i2\s*=\s*(i2[^;]*);"
-                      r"\s*let\s+result\s*=\s*([^;]*);\s*(f32_bound\([^;{}]*\))\s*\}\s*;", body, re.S)
+                      r"\s*let\s+result\s*=\s*([^;]*);\s*(?:if\s+!result\.is_finite\(\)\s*\{\s*return\s+(if[^;]*);\s*\}\s*)?(f32_bound\([^;{}]*\))\s*\}\s*;", body, re.S)
         if not m:
             raise Bad("arithmetic: calc closure changed shape")
         n1 = fx(m.group(1), {'i1': ('i', 'int')})
@@ -511,7 +513,10 @@ def generate(api):
             raise Bad("arithmetic: i1 and i2 are normalised differently")
         envk = {k: (k, 'f32') for k in ('k1', 'k2', 'k3', 'k4', 'i1', 'i2')}
         res = fx(m.group(3), envk)
-        bound = fx(m.group(4), {'result': ('result', 'f32'), 'max': ('max', 'f32')}, funs=funs)
+        benv = {'result': ('result', 'f32'), 'max': ('max', 'f32')}
+        bound = fx(m.group(5), benv, funs=funs)
+        if m.group(4):     # `if !result.is_finite() { return if result > 0.0 { max } else { 0.0 }; }`
+            bound = "(if negb (ffinite result) then %s else %s)" % (if_chain(m.group(4), benv), bound)
         ma = re.search(r"let\s+a\s*=\s*calc\(c1\.a,\s*c2\.a,\s*([\d.]+)\)\s*;\s*if\s+a\.approx_zero_ulps\(4\)\s*\{\s*i\s*\+=\s*1;\s*continue;\s*\}", body)
         if not ma:
             raise Bad("arithmetic: alpha computation / zero test changed")
@@ -606,7 +611,7 @@ def generate(api):
                    {'Clear': 'BClear', 'SourceOver': 'BSourceOver', 'Xor': 'BXor'}.get(mode.group(1), 'BOther'),
                    {'Clear': 'BClear', 'SourceOver': 'BSourceOver', 'Xor': 'BXor'}.get(gmode.group(1), 'BOther'),
                    {'Clear': 'BClear', 'SourceOver': 'BSourceOver', 'Xor': 'BXor'}.get(gblend.group(1), 'BOther')))
-    section('clip_modes', clip_modes)
+    section('clip_modes', clip_modes, ('C15',), out_clip)
 
     def mask_shape():
         mk = strip_comments(api.rd('crates/resvg/src/mask.rs'))
@@ -629,6 +634,7 @@ def generate(api):
                 % tuple('true' if b else 'false' for b in (
                     empty, order == want, kinds.get('Luminance') == 'Luminance', kinds.get('Alpha') == 'Alpha',
                     [x.split('(')[0].strip() for x in seq] == ['crate::filter::apply', 'crate::clip::apply', 'crate::mask::apply', 'opacity: group.opacity'])))
-    section('mask_shape', mask_shape)
+    section('mask_shape', mask_shape, ('C15',), out_clip)
 
     api.write_gen('PixelTables.v', "\n".join(out))
+    api.write_gen('ClipTables.v', "\n".join(out_clip))
